@@ -42,6 +42,9 @@ type DenseInt32Matrix struct {
 /* constructors
  * -------------------------------------------------------------------------- */
 func NewDenseInt32Matrix(values []int32, rows, cols int) *DenseInt32Matrix {
+  if rows < 0 || cols < 0 || len(values) != rows*cols {
+    panic("NewMatrix(): Matrix dimension does not fit input values!")
+  }
   m := DenseInt32Matrix{}
   m.values = values
   m.rows = rows
